@@ -128,7 +128,13 @@ def merge(results):
     for b in out.buckets.values():
         b["cases"].sort(key=lambda t: t[0])
         del b["cases"][KEEP_PER_BUCKET:]
-    out.samples = out.samples[:MAX_SAMPLES]
+    seen, uniq = set(), []
+    for smp in out.samples:
+        k = h64(smp)
+        if k not in seen:
+            seen.add(k)
+            uniq.append(smp)
+    out.samples = uniq[:MAX_SAMPLES]
     return out
 
 
